@@ -248,8 +248,11 @@ static double Float_C_Float(var self) {
 }
 
 static int Float_Cmp(var self, var obj) {
-  double c = Float_C_Float(self) - c_float(obj);
-  return c > 0 ? 1 : c < 0 ? -1 : 0;
+  double a = Float_C_Float(self);
+  double b = c_float(obj);
+  /* NaN is equal to NaN only, and sorts above every number */
+  if (a != a or b != b) { return (a != a) - (b != b); }
+  return a > b ? 1 : a < b ? -1 : 0;
 }
 
 union interp_cast {
@@ -261,6 +264,8 @@ static uint64_t Float_Hash(var self) {
   union interp_cast ic;
   ic.as_flt = c_float(self);
   if (ic.as_flt == 0.0) { ic.as_flt = 0.0; }
+  /* Every NaN compares equal to every other: one hash for all of them */
+  if (ic.as_flt != ic.as_flt) { ic.as_int = UINT64_C(0x7FF8000000000000); }
   return ic.as_int;
 }
 
